@@ -90,8 +90,9 @@ Full statement (every line of `ircutils.wrap(s, length)` has at most `length` by
       ∃ lines, ircWrap chunks s length = .ok lines ∧ ∀ l ∈ lines, blen l ≤ length
 
 FALSE on the pinned tree (`ircWrap_fits_counterexample`): the contexts are recomputed by parsing the
-*produced* lines, so a re-opened colour code runs into the digits / comma that follow it and the next
-chunks are re-opened with a context larger than any context of the original text
+*produced* lines, so a re-opened foreground colour code followed by ",<digit>" is read as a
+foreground,background pair and the next chunks are re-opened with a context larger than any context of
+the original text (a digit following the code is harmless since `getInt` reads at most two digits)
 (known finding C12-reopened-colour-runs-into-text).  Proved under the decidable coherence condition,
 which holds for every text without formatting codes (`ircWrap_plain`).
 -/
@@ -110,12 +111,12 @@ theorem ircWrap_fits_partial (chunks : List Str) (s : Str) (length : Nat)
     have := processLines_fits consts_ok.2.1 (parse s).maxSize (length - (parse s).maxSize) out none hco h3 l hl
     omega
 
-def cexChunks : List Str := [[Char.ofNat 3, '1'], " ".toList, "aaaa".toList, " ".toList, "1,2bbb".toList, " ".toList, ",cccc".toList]
-def cexText : Str := [Char.ofNat 3, '1'] ++ " aaaa 1,2bbb ,cccc".toList
+def cexChunks : List Str := [[Char.ofNat 3, '1'], " ".toList, "aaaa".toList, " ".toList, ",2bbbb".toList, " ".toList, ",cccc".toList]
+def cexText : Str := [Char.ofNat 3, '1'] ++ " aaaa ,2bbbb ,cccc".toList
 
 example : cexChunks.flatten = munge cexText ∧ (parse cexText).maxSize + 4 ≤ 11 := by decide
 
-/-- `ircutils.wrap('\x031 aaaa 1,2bbb ,cccc', 11)` returns a line of 13 bytes. -/
+/-- `ircutils.wrap('\x031 aaaa ,2bbbb ,cccc', 11)` returns a line of 12 bytes. -/
 theorem ircWrap_fits_counterexample :
     ¬ (∀ chunks s length, chunks.flatten = munge s → (parse s).maxSize + 4 ≤ length →
         ∃ lines, ircWrap chunks s length = .ok lines ∧ ∀ l ∈ lines, blen l ≤ length) := by
@@ -124,12 +125,12 @@ theorem ircWrap_fits_counterexample :
   have hv : ircWrap cexChunks cexText 11 = .ok
       [[Char.ofNat 3, '1', ' ', Char.ofNat 15],
        Char.ofNat 3 :: ("01aaaa ".toList ++ [Char.ofNat 15]),
-       Char.ofNat 3 :: ("011,2bbb".toList ++ [Char.ofNat 15]),
-       Char.ofNat 3 :: ("11,02 ,cccc".toList ++ [Char.ofNat 15])] := by decide
+       Char.ofNat 3 :: ("01,2bbbb".toList ++ [Char.ofNat 15]),
+       Char.ofNat 3 :: ("1,02 ,cccc".toList ++ [Char.ofNat 15])] := by decide
   rw [hv] at h1
   injection h1 with h1
   subst h1
-  have := h2 (Char.ofNat 3 :: ("11,02 ,cccc".toList ++ [Char.ofNat 15])) (by simp)
+  have := h2 (Char.ofNat 3 :: ("1,02 ,cccc".toList ++ [Char.ofNat 15])) (by simp)
   revert this
   decide
 
